@@ -188,6 +188,46 @@ static std::string cmd_session(const std::vector<std::string>& a, bool verbose) 
     return o.str();
 }
 
+// EXEC <cfg: sigver flags z w script stack succ> <nsteps> <tok1,tok2,...>
+// session advanced by nsteps, then `exec tok1 tok2 ...` (Instance::eval as fn_exec calls it)
+static std::string cmd_exec(const std::vector<std::string>& a) {
+    RunCfg c = parse_cfg(a);
+    size_t nsteps = std::stoul(a[8]);
+    std::vector<std::string> toks = a.size() > 9 && a[9] != "-" ? split(a[9], ',') : std::vector<std::string>();
+    Instance inst; std::string why;
+    if (!setup(inst, c, why)) return why;
+    for (size_t i = 0; i < nsteps; i++) { if (inst.at_end() || !inst.step()) return "PREFIX-FAILED"; }
+    std::string before = full_state(inst);
+    valtype script_before(inst.env->script.begin(), inst.env->script.end());
+    std::vector<char*> argv;
+    for (auto& t : toks) argv.push_back(strdup(t.c_str()));
+    std::string r; bool ok = false;
+    ScriptError before_err = inst.error;
+    inst.error = SCRIPT_ERR_ERROR_COUNT;   // sentinel: tells a script error from a refusal / caught exception
+    // capture what eval reports on stderr: it is the only place a refusal ("invalid opcode") and a caught exception differ
+    char* ebuf = nullptr; size_t elen = 0;
+    FILE* ems = open_memstream(&ebuf, &elen);
+    FILE* saved_err = stderr;
+    stderr = ems;
+    try { ok = inst.eval(argv.size(), argv.data()); }
+    catch (const std::exception& ex) { r = "UNCAUGHT"; }
+    fflush(ems); stderr = saved_err; fclose(ems);
+    std::string etext(ebuf ? ebuf : "", elen); free(ebuf);
+    if (r.empty()) {
+        if (ok) r = "OK";
+        else if (toks.empty()) r = "FAIL:REFUSED";
+        else if (etext.find("exception thrown") != std::string::npos) r = "FAIL:EXC";
+        else if (etext.find("invalid opcode") != std::string::npos) r = "FAIL:REFUSED";
+        else if (inst.error == SCRIPT_ERR_ERROR_COUNT) r = "FAIL:NOERR";
+        else r = "FAIL:" + errname(inst.error);
+    }
+    for (auto p : argv) free(p);
+    valtype script_after(inst.env->script.begin(), inst.env->script.end());
+    std::ostringstream o;
+    o << "before=" << before << " result=" << r << " after=" << (ok ? full_state(inst) : std::string("-")) << " script_same=" << (script_before == script_after ? 1 : 0);
+    return o.str();
+}
+
 static std::string cmd_run(const std::vector<std::string>& a, bool verbose) {
     RunCfg c = parse_cfg(a);
     std::ostringstream o;
@@ -236,6 +276,7 @@ static std::string dispatch(const std::string& line) {
         if (a[0] == "SNSWEEP") return cmd_snsweep(a);
         if (a[0] == "RUN") return cmd_run(a, false);
         if (a[0] == "RUNV") return cmd_run(a, true);
+        if (a[0] == "EXEC") return cmd_exec(a);
         if (a[0] == "SESSION") return cmd_session(a, false);
         if (a[0] == "SESSIONV") return cmd_session(a, true);
     } catch (const std::exception& e) {
